@@ -316,7 +316,12 @@ def rule_m(ck, prog, mg, gs):
               f"{mname} returns the values parsed together with the opening it authenticated", loc=m.loc())
     # the opened values that are kept are kept together with the opening that authenticates them
     for cname in ("winter_verifier::channel::TraceQueries", "winter_verifier::channel::ConstraintQueries"):
-        ctor = prog.fn(cname + "::new")
+        # whichever function builds the value (its `new`, or VerifierChannel::new when the constructor was inlined there)
+        builders = [f for f in prog.fns.values() if f.crate == "winter_verifier" and f.kind != "closure" and
+                    any(st["rv"]["k"] == "agg" and st["rv"].get("adt") == cname for _, _, st in f.assigns())]
+        if len(builders) != 1:
+            raise AnchorError(f"{cname} is constructed in {len(builders)} functions")
+        ctor = builders[0]
         ck.saw(ctor)
         gf = flow(ctor)
         adt = prog.adt(cname)
@@ -339,11 +344,11 @@ def rule_m(ck, prog, mg, gs):
                 return {n[1] for n in w if n[0] == "c" and (callee_name(ctor.term(n[1])) or "").endswith("Queries::parse")}
             pp, pv = parses(proof_f), parses(value_f)
             ck.ob("M", f"openings-kept-with-values:{cname.split('::')[-1]}", bool(pv) and pv <= pp,
-                  f"{cname.split('::')[-1]}::new keeps, for every Queries::parse whose table it keeps, the Merkle opening of the same parse "
+                  f"{cname.split('::')[-1]} is built keeping, for every Queries::parse whose table is kept, the Merkle opening of the same parse "
                   f"(values kept from {len(pv)} parse site(s), openings kept from {len(pp)})", loc=ctor.loc(b, i),
                   detail=None if pv <= pp else f"values of the parse at {[ctor.loc(x, T) for x in sorted(pv - pp)]} are used without their opening")
         if not found:
-            raise AnchorError(f"{cname}::new does not construct {cname}")
+            raise AnchorError(f"{ctor.nname} does not construct {cname}")
     # query positions handed to the three readers share one origin (checked in C04 E3.used)
 
 
